@@ -30,6 +30,7 @@ func init() {
 	ruleText["R09.3"] = "blocking reflect.Value.Recv/Send are unreachable when Interpreter.cancelChan is true; each reflect.Select call has a case loaded from frame.done and the closure returns nil when the chosen index is the position of that case"
 	ruleText["R09.4"] = "each exported method taking a context.Context that evaluates in a goroutine selects on ctx.Done(), calls (*Interpreter).stop in that case and returns ctx.Err()"
 	ruleText["R09.5"] = "(*Interpreter).stop atomically advances Interpreter.id and closes Interpreter.done; (*Interpreter).run stores a receive SelectCase on Interpreter.done into frame.done"
+	ruleText["R09.8"] = "= R08.1 on the generators whose run-time closures create frames (newFrame) or host callbacks (reflect.MakeFunc): they write no captured generator variable - a frame or callback kept from one execution of the statement to the next keeps the run id and done case of an earlier evaluation"
 	ruleText["R09.6"] = "a mode field of Interpreter assigned by public entry points after construction (cancelChan) is not read at closure-generation time to select which closure is installed"
 }
 
@@ -47,6 +48,44 @@ func runC09(c *Config, r *Report) {
 	c09R6(ic, r)
 	c09R7(ic, r)
 	watcherPreparation(ic, r, "R09.4")
+	c09R8(ic, r)
+}
+
+// c09R8: = R08.1 on the generators that create frames or host callbacks. Round-6 seed: the
+// wrapper of a top-level function handed to the host was built once per call site, so the
+// callback kept the frame (run id, done case) of the first evaluation that executed the site.
+func c09R8(ic *IC, r *Report) {
+	makers := map[string]bool{}
+	for name, fi := range ic.F {
+		if fi.Decl.Body != nil && len(callsIn(ic.Info, fi.Decl.Body, true, "interp.newFrame", "reflect.MakeFunc")) > 0 {
+			makers[name] = true
+		}
+	}
+	sub := newReport("C08")
+	c08R1(ic, sub)
+	n := 0
+	for _, o := range sub.Obls {
+		if o.Rule != "R08.1" {
+			continue
+		}
+		name := o.Key
+		if i := strings.Index(name, "/"); i >= 0 {
+			name = name[:i]
+		}
+		if !makers[name] {
+			continue
+		}
+		o.Rule = "R09.8"
+		if !o.OK {
+			o.Detail += "; here the closure creates frames or host callbacks: what it keeps from one execution to the next carries the run id and the done case of the evaluation that executed it first, and the code reached through it is not stopped by the cancellation of a later evaluation"
+		}
+		r.add(o)
+		n++
+	}
+	r.Errors = append(r.Errors, sub.Errors...)
+	if n < 3 {
+		r.Errorf("R09.8: only %d generators creating frames or host callbacks found", n)
+	}
 }
 
 // c09R7: re-synchronisation of the root frame id reachable from watcher goroutines.
